@@ -1,5 +1,10 @@
-import SaoVerif.Generated.Skeleton
-import SaoVerif.Spec.SkeletonExpected
+import SaoVerif.Skeleton.x_market_keeper_pool_management_go
+import SaoVerif.Skeleton.x_node_keeper_shard_pledge_management_go
+import SaoVerif.Skeleton.x_node_keeper_msg_server_claim_reward_go
+import SaoVerif.Skeleton.x_sao_keeper_msg_server_renew_go
+import SaoVerif.Skeleton.x_did_keeper_did_management_go
+import SaoVerif.Skeleton.x_order_keeper_order_management_go
+import SaoVerif.Skeleton.app_app_go
 /-!
 # C06 — the decision logic of the anchor files is the one that was modelled
 
@@ -7,9 +12,10 @@ The extractor (harness/cmd/extract) regenerates, on every run and from the tree 
 function: its branching constructs in source order, each guard with its condition and with how its branch ends (`return <err>`,
 `continue`, `panic`, …). The hand-written model mirrors exactly these decisions (its `…Pre` / `…Guards` functions are the
 guards of the handlers, in their order). This theorem says that for the files the property is anchored in
-(x/market/keeper/pool_management.go, x/node/keeper/shard_pledge_management.go, x/node/keeper/msg_server_claim_reward.go, x/sao/keeper/msg_server_renew.go, x/did/keeper/did_management.go, x/order/keeper/order_management.go, app/app.go) the regenerated skeletons equal the ones the model was written against. A change of a guard, of its
-order, or a new or removed branch breaks it: the correspondence then has to be re-established (the check searches the
-histories for a failing input and reports the violation either way).
+(x/market/keeper/pool_management.go, x/node/keeper/shard_pledge_management.go, x/node/keeper/msg_server_claim_reward.go, x/sao/keeper/msg_server_renew.go, x/did/keeper/did_management.go, x/order/keeper/order_management.go, app/app.go) the regenerated skeletons equal the ones the model was written against
+(one kernel-evaluated equality per source file, `SaoVerif/Skeleton/<file>.lean`). A change of a guard, of its order, or a new or
+removed branch breaks it: the correspondence then has to be re-established (the check searches the histories for a failing
+input and reports the violation either way).
 -/
 namespace SaoVerif
 
@@ -28,6 +34,6 @@ theorem C06_decision_skeleton_as_modelled :
      Expected.Skel.x_did_keeper_did_management_go,
      Expected.Skel.x_order_keeper_order_management_go,
      Expected.Skel.app_app_go] := by
-  decide +kernel
+  rw [skel_x_market_keeper_pool_management_go, skel_x_node_keeper_shard_pledge_management_go, skel_x_node_keeper_msg_server_claim_reward_go, skel_x_sao_keeper_msg_server_renew_go, skel_x_did_keeper_did_management_go, skel_x_order_keeper_order_management_go, skel_app_app_go]
 
 end SaoVerif
